@@ -384,9 +384,11 @@ def gen_database(rng, idx=0, shape=None):
     for i in range(nnot):
         c = '\\n%d' % i
         k = rng.choice([0, 1, 1, 2])
+        if k == 0 and not [h for h in heads if h[1] == 0]:
+            k = 1                                  # a closed body needs a constant of arity 0
         params = rng.sample(fvars, k)
         body_vars = list(params)
-        if rng.random() < 0.15:
+        if rng.random() < 0.04:
             extra = [v for v in fvars if v not in params]
             if extra:
                 body_vars.append(rng.choice(extra))          # a free metavariable in the body
@@ -521,8 +523,20 @@ def gen_database(rng, idx=0, shape=None):
             n = apply_rule(rng.choice(userules))
         if n is not None:
             last = n
-    if last is None or rng.random() < 0.15:
+    if custom and rng.random() < 0.5:
+        # make a rule with essential hypotheses the last step more often
+        for _ in range(3):
+            n = apply_rule(rng.choice(custom))
+            if n is not None:
+                last = n
+                break
+    if last is None or rng.random() < 0.1:
         last = facts[rng.choice(order)]
+    if nt >= 2 and len(tvars(last.concl)) < nt and rng.random() < 0.6:
+        # prefer a derived statement that mentions more of the target variables
+        best = max(order, key=lambda f: (len(tvars(f)), -tsize(f)))
+        if len(tvars(best)) > len(tvars(last.concl)):
+            last = facts[best]
     target = Assertion('goal' if rng.random() < 0.7 else 'thm-%d' % idx, '|-', [last.concl])
     db.items.append(('p', target, None))
     info = dict(nvars=len(target.vars()), nnot=nnot, nconst=nconst, nax=nax, nrule=nrule, use_app=db.use_app,
